@@ -21,7 +21,7 @@ ASSUMPTIONS = ["scipy.optimize.linprog (HiGHS) solves the transport LP exactly (
 EVAL_COUNTER = "evaluate_calls"
 REQUIRED = {"quick": {"compared": 1500, "registry_compared": 26, "insitu_compared": 100,
                       "compared:kl": 50, "compared:tv": 50, "compared:hellinger": 50, "compared:chi2": 50,
-                      "compared:mmd": 100, "compared:wasserstein": 100, "named_affinity_compared": 700, "mi_alias_compared": 100},
+                      "compared:mmd": 100, "compared:wasserstein": 100, "named_affinity_compared": 700, "mi_alias_compared": 100, "inplace_refresh_calls": 400},
             "thorough": {"compared": 20000, "registry_compared": 100, "insitu_compared": 2000}}
 SHARD_TIMEOUT = {"quick": 900, "thorough": 5400}
 
@@ -235,9 +235,29 @@ def run_case(case, ctx, st):
                     ctx.violation("named-affinity", f"affinity-not-the-named-{'kernel' if desc['cls'] == 'MMDGEMINI' else 'metric'}",
                                   observed={"desc": desc, "max_abs_diff": float(np.nanmax(np.abs(got - want))) if got.shape == want.shape else None},
                                   expected="scikit-learn's pairwise kernel / distance with the given parameters")
-            gem(P, A)
+            v_first = gem(P, A)
             if idx % 3 == 0:
                 gem.evaluate(P, A, return_grad=True)
+            if idx % 4 == 1:
+                # the same GEMINI object and the same array objects, refreshed in place (a preallocated prediction buffer,
+                # an in-place finite difference): what __call__ returns is the score of what the arrays hold NOW
+                rng2 = gen.rng_for(case["seed"], ID, "refresh", idx)
+                P_new, _ = gen.predictions(rng2, P.shape[0], P.shape[1], float(rng2.choice([0.5, 2.0, 6.0])))
+                P[:] = P_new
+                if A is not None and isinstance(A, np.ndarray) and A.flags.writeable and rng2.random() < 0.5:
+                    A *= 0.5
+                v_again = gem(P, A)
+                st.tap.enabled = False
+                try:
+                    v_fresh = gem.evaluate(np.array(P, copy=True), None if A is None else np.array(A, copy=True))
+                finally:
+                    st.tap.enabled = True
+                ctx.count("inplace_refresh_calls")
+                va, vf = float(np.asarray(v_again).reshape(-1)[0]), float(np.asarray(v_fresh).reshape(-1)[0])
+                if not (abs(va - vf) <= 1e-12 * max(1.0, abs(vf)) or (va != va and vf != vf)):
+                    ctx.violation("call-is-stateless", "call-returns-score-of-earlier-content",
+                                  observed={"returned": va, "first_call": float(np.asarray(v_first).reshape(-1)[0]), "desc": desc},
+                                  expected={"score_of_current_content": vf})
     elif case["kind"] == "registry":
         _registry_case(case, ctx, st)
     elif case["kind"] == "fit":
